@@ -114,7 +114,7 @@ def extract(root=None, crates="sqlgrep", profile="dev", fresh=False, cargo_args=
             facts.append(d)
         # prune old fact dirs (keep 6 newest)
         alld = sorted(glob.glob(os.path.join(CACHE, "facts", "*")), key=os.path.getmtime)
-        for d in alld[:-6]:
+        for d in alld[:-int(os.environ.get("VERIF_KEEP_FACTS", "6")):]:
             if d != out:
                 shutil.rmtree(d, ignore_errors=True)
         info = {"hash": hx, "cached": cached, "extract_s": round(time.time() - t0, 2), "root": root,
